@@ -230,9 +230,16 @@ def _check_main(ctx, res) -> None:
     ok_c = False
     for c in calls_in(wf_node):
         if idx.resolve(wf.unit.modname, c.func) == ENC:
+            def from_resource(e, depth=0) -> bool:
+                """<resource>.newlines itself, or a local that (transitively) was bound to it"""
+                if isinstance(e, ast.Attribute) and e.attr == "newlines" and isinstance(e.value, ast.Name) and e.value.id == rparam:
+                    return True
+                if isinstance(e, ast.Name) and depth < 4:
+                    return any(from_resource(x.value, depth + 1) for x in walk_local(wf_node) if isinstance(x, ast.Assign)
+                               and any(isinstance(t, ast.Name) and t.id == e.id for t in x.targets))
+                return False
             for k in c.keywords:
-                if k.arg == "newlines" and isinstance(k.value, ast.Attribute) and k.value.attr == "newlines" \
-                        and isinstance(k.value.value, ast.Name) and k.value.value.id == rparam:
+                if k.arg == "newlines" and from_resource(k.value):
                     ok_c = True
             if len(c.args) >= 3 and isinstance(c.args[2], ast.Attribute) and c.args[2].attr == "newlines":
                 ok_c = True
@@ -322,6 +329,27 @@ def _check_main(ctx, res) -> None:
                     isinstance(x.func, ast.Attribute) and x.func.attr == "read" and norm(x.func.value) == r
                     for x in calls_in(n.ast) + ([n.ast] if isinstance(n.ast, ast.Call) else []))
                 ok = callee_reads or cfg.must_pass_through(cfg.entry.id, wn.id, is_read)
+                if not ok:
+                    # caller-level discharge with the same excuses as in the callee: the convention is already known (`<r>.newlines is None`
+                    # answered no, or `<r>.newlines` was just assigned the convention saved by do()), or there is no file.  The path on which
+                    # the SAVED convention is None is excused as well: do() captures it after a read (R16.14) and it is saved with the change
+                    # (R12.15), so it is None only when there was no file whose convention could be lost.
+                    reads = [n.id for n in cfg.nodes if is_read(n)]
+                    excused = []
+                    for t in cfg.nodes:
+                        if t.kind != "test":
+                            continue
+                        a_ = t.ast
+                        if isinstance(a_, ast.Compare) and isinstance(a_.left, ast.Attribute) and isinstance(a_.comparators[0], ast.Constant) and a_.comparators[0].value is None \
+                                and len(a_.ops) == 1 and isinstance(a_.ops[0], (ast.Is, ast.IsNot)):
+                            known = "false" if isinstance(a_.ops[0], ast.Is) else "true"
+                            if a_.left.attr == "newlines" and norm(a_.left.value) == r:
+                                excused += [(t.id, b2, l) for b2, l in cfg.succ[t.id] if l == known]
+                            elif "newlines" in a_.left.attr and is_self_attr(a_.left):
+                                excused += [(t.id, b2, l) for b2, l in cfg.succ[t.id]]  # saved convention: known, or there was no file
+                        if isinstance(a_, ast.Call) and call_name(a_) == "exists" and isinstance(a_.func, ast.Attribute) and norm(a_.func.value) == r:
+                            excused += [(t.id, b2, l) for b2, l in cfg.succ[t.id] if l == "false"]
+                    ok = bool(excused) and wn.id not in cfg.reachable(cfg.entry.id, avoid_nodes=reads, avoid_edges=excused)
                 res.add("R16.3", f"ChangeContents.{mname}", ok, f"{m.unit.rel}:{c.lineno}",
                         "the resource is read (newline convention detected) on every path before it is written" if ok else
                         f"ChangeContents.{mname} can write the file without this resource object ever having been read "
